@@ -767,7 +767,7 @@ class Cas:
             t = ts.get_type(fs.type.name)
 
             # Arrays contents are handled separately - they only have one "virtual" feature: elements
-            if t.supertype.name == "uima.cas.ArrayBase":
+            if t.supertype is not None and t.supertype.name == "uima.cas.ArrayBase":
                 if t.name == "uima.cas.FSArray" and fs.elements:
                     for ref in fs.elements:
                         if not ref or ref.xmiID in all_fs:
